@@ -125,9 +125,32 @@ fn gen_op(r: &mut Rng, pool: &Pool, mode: &str) -> Op {
             } else if k < 65 {
                 op.op = "from_char".into();
                 op.s = r.pick(CHARS).as_bytes().to_vec();
-            } else if k < 88 && !live.is_empty() {
+            } else if k < 85 && !live.is_empty() {
                 op.op = "clone".into();
                 op.g = *r.pick(&live);
+            } else if k < 89 {
+                // raw bytes: mostly well-formed text with a few damaged places
+                op.op = "from_utf8_lossy".into();
+                let l = *r.pick(LENS);
+                let mut b = rand_text(r, l);
+                for _ in 0..r.below(3) {
+                    if !b.is_empty() {
+                        let i = r.below(b.len());
+                        match r.below(3) {
+                            0 => b[i] = *r.pick(&[0x80u8, 0xbf, 0xc0, 0xc2, 0xe0, 0xed, 0xf0, 0xf4, 0xf5, 0xff]),
+                            1 => {
+                                b.truncate(i);
+                            }
+                            _ => b.insert(i, *r.pick(&[0x80u8, 0xa0, 0xe2, 0xf0])),
+                        }
+                    }
+                }
+                op.s = b;
+            } else if k < 92 {
+                op.op = if r.chance(50) { "from_utf16".into() } else { "from_utf16_lossy".into() };
+                let n = *r.pick(&[0usize, 1, 2, 5, 8, 9, 16, 17, 20]);
+                let u: Vec<u16> = (0..n).map(|_| *r.pick(&[0x41u16, 0x41, 0xe9, 0x20ac, 0xd83d, 0xde00, 0xd800, 0xdc00, 0xffff, 0x0])).collect();
+                op.x = json!(u);
             } else {
                 op.op = "collect".into();
                 op.v = if r.chance(60) { "chars".into() } else { "strs".into() };
